@@ -65,10 +65,14 @@ type verifConn struct {
 	noDeadlineErrs bool
 	onWrite func(c *verifConn) // hook after each accepted write
 	coarse  bool               // case-split faulty write offsets coarsely (0, 1, len-1)
+	slow    bool               // a Write takes time: other goroutines get to run meanwhile (scheduling point)
 }
 
 func (c *verifConn) Write(p []byte) (int, error) {
 	c.wcalls++
+	if c.slow {
+		verifYield()
+	}
 	if c.closed {
 		return 0, net.ErrClosed
 	}
